@@ -252,7 +252,7 @@ def make_machine(plugin: str, pool: Pool, ctx: Ctx, stats: collections.Counter, 
             if nontrivial:
                 stats["nontrivial_runs"] += 1
             stats["histories_hash"] = 0
-            case = {"plugin": plugin, "history": list(self.history)}
+            case = {"plugin": plugin, "history": list(self.history), "shape": self.shape}
             if r.returncode != 0:
                 if "<plugin failed>" in ref:
                     return  # fails the same way in a fresh directory: not a determinism matter (C06)
@@ -340,7 +340,7 @@ def make_machine(plugin: str, pool: Pool, ctx: Ctx, stats: collections.Counter, 
                 stats["runs"] += 1
                 stats["nontrivial_runs"] += 1
                 self.history.append(["run", key, hs])
-                case = {"plugin": plugin, "history": list(self.history)}
+                case = {"plugin": plugin, "history": list(self.history), "shape": self.shape}
                 if r.returncode != 0:
                     if "<plugin failed>" not in ref:
                         ctx.finding(("run-failed", plugin, "harness:" + variant), (r.stderr or r.stdout)[-300:], case)
@@ -598,15 +598,28 @@ def replay(ctx: Ctx, path: str) -> int:
     stats: collections.Counter = collections.Counter()
     try:
         M = make_machine(plugin, pool, ctx, stats, {})
-        mach = M()
+        stats["machines"] = 4   # (not the first machine of a worker: the directory name comes from the table)
+        mach = M(case.get("shape") or "plain")
         try:
-            for step in history:
+            i = 0
+            while i < len(history):
+                step = history[i]
+                i += 1
                 if step[0] == "run":
                     if step[1] not in pool.lists:
                         raise HarnessError(f"model list {step[1]} is not in the pool of this tier/seed")
                     mach.do_run(step[1], step[2], step[3] if len(step) > 3 else "default")
                 elif step[0] == "plant":
                     mach._plant(step[1], step[2])
+                elif step[0] == "harness":
+                    # the rule runs the generator itself (up to three times): those runs are part of the step
+                    hs = history[i][2] if i < len(history) and history[i][0] == "run" else 1
+                    mach.harness_idempotence(step[1], hs)
+                    skipped = 0
+                    while i < len(history) and skipped < 3 and history[i][0] == "run" and history[i][1] == mach.last_key and history[i][2] == hs and len(history[i]) == 3:
+                        i += 1
+                        skipped += 1
+                # ("precreated" / "other-plugin" steps are what the machine of that shape does when it is set up)
         finally:
             mach.teardown()
     finally:
